@@ -123,15 +123,72 @@ func checkC08(c *Ctx) {
 	}
 	c08PerViewQuorum(c, fa, add)
 
-	// C08.4 labels and list
+	// C08.4 labels and list. The roles of the rule's parameters are taken from what the implementations do with
+	// them: the view parameter(s) that label the certificate (passed to CreateTimeoutCert / CreateAggregateQC) and
+	// the list parameter; at the call site exactly those arguments must be timeout.View and the list returned by add.
+	labelIdx, listIdx := map[int]bool{}, map[int]bool{}
+	paramIdx := func(k string) int {
+		if len(k) < 2 || k[0] != 'p' {
+			return -1
+		}
+		n := 0
+		for _, ch := range k[1:] {
+			if ch < '0' || ch > '9' {
+				return -1
+			}
+			n = n*10 + int(ch-'0')
+		}
+		return n
+	}
+	tr := p.Iface("protocol/synchronizer", "TimeoutRuler")
+	for _, t := range p.Implementations(tr, false) {
+		fn := p.MethodOf(t, "RemoteTimeoutRule")
+		if fn == nil {
+			continue
+		}
+		fr := NewFlow(p, fn)
+		name := t.Obj().Name()
+		for _, s := range callsIn(fn, false, func(cc *ssa.CallCommon) bool {
+			cal := cc.StaticCallee()
+			return cal != nil && (cal.Name() == "CreateTimeoutCert" || cal.Name() == "CreateAggregateQC") && funcPkgPath(cal) == modPath+"/security/cert"
+		}) {
+			a := s.Common().Args
+			k1, k2 := fr.K.Key(a[1]), fr.K.Key(a[2])
+			what := s.Common().StaticCallee().Name()
+			i1, i2 := paramIdx(k1), paramIdx(k2)
+			ok := i1 > 0 && i2 > 0 && i1 < len(fn.Params) && i2 < len(fn.Params) &&
+				fn.Params[i1].Type().String() == modPath+".View" && fn.Params[i2].Type().String() == "[]"+modPath+".TimeoutMsg"
+			if ok {
+				labelIdx[i1], listIdx[i2] = true, true
+			}
+			c.Check(ok, "C08.4", name+".RemoteTimeoutRule: "+what+" labelled with the timed-out view", p.Pos(s.Pos()),
+				what+"(<view parameter "+paramName(fn, k1)+">, <list parameter "+paramName(fn, k2)+">)", what+" called with view="+paramName(fn, k1)+" list="+paramName(fn, k2)+" (expected a view parameter and the list parameter of the rule)")
+		}
+	}
 	for _, s := range callsIn(ort, false, func(cc *ssa.CallCommon) bool { return cc.IsInvoke() && cc.Method.Name() == "RemoteTimeoutRule" }) {
 		a := s.Common().Args
-		k1, k2 := fl.K.Key(a[1]), fl.K.Key(a[2])
 		facts := fl.At(s)
-		ok := k1 == "p1."+kTOMsg+"View" && strings.HasPrefix(k2, kTCAdd) && strings.HasSuffix(k2, "#0") && trueOf(facts, is(strings.TrimSuffix(k2, "#0")+"#1"))
+		ok := len(labelIdx) > 0 && len(listIdx) > 0
+		k1, k2 := "?", "?"
+		for j := range labelIdx {
+			if j-1 >= len(a) {
+				ok = false
+				continue
+			}
+			k1 = fl.K.Key(a[j-1])
+			ok = ok && k1 == "p1."+kTOMsg+"View"
+		}
+		for j := range listIdx {
+			if j-1 >= len(a) {
+				ok = false
+				continue
+			}
+			k2 = fl.K.Key(a[j-1])
+			ok = ok && strings.HasPrefix(k2, kTCAdd) && strings.HasSuffix(k2, "#0") && trueOf(facts, is(strings.TrimSuffix(k2, "#0")+"#1"))
+		}
 		c.Check(ok, "C08.4", "OnRemoteTimeout->RemoteTimeoutRule", p.Pos(s.Pos()),
-			"RemoteTimeoutRule(_, timeout.View, <list returned by add>) only when add reported a quorum",
-			"RemoteTimeoutRule called with timeoutView="+k1+", list="+k2)
+			"the view argument that labels the certificate is timeout.View and the list argument is the list returned by add, only when add reported a quorum",
+			"RemoteTimeoutRule called with certificate view="+k1+", list="+k2+" (expected the view of the timeout message and the quorum returned by add)")
 		// C08.5 result reaches advanceView
 		rk := fl.K.Key(s.Value())
 		adv := p.Method("protocol/synchronizer", "Synchronizer", "advanceView")
@@ -155,26 +212,6 @@ func checkC08(c *Ctx) {
 			"the sync info returned by RemoteTimeoutRule is passed to advanceView on every path where the rule succeeded",
 			"a successful RemoteTimeoutRule result can be dropped without calling advanceView")
 	}
-	tr := p.Iface("protocol/synchronizer", "TimeoutRuler")
-	for _, t := range p.Implementations(tr, false) {
-		fn := p.MethodOf(t, "RemoteTimeoutRule")
-		if fn == nil {
-			continue
-		}
-		fr := NewFlow(p, fn)
-		name := t.Obj().Name()
-		for _, s := range callsIn(fn, false, func(cc *ssa.CallCommon) bool {
-			cal := cc.StaticCallee()
-			return cal != nil && (cal.Name() == "CreateTimeoutCert" || cal.Name() == "CreateAggregateQC") && funcPkgPath(cal) == modPath+"/security/cert"
-		}) {
-			a := s.Common().Args
-			k1, k2 := fr.K.Key(a[1]), fr.K.Key(a[2])
-			what := s.Common().StaticCallee().Name()
-			c.Check(k1 == "p2" && k2 == "p3", "C08.4", name+".RemoteTimeoutRule: "+what+" labelled with the timed-out view", p.Pos(s.Pos()),
-				what+"(timeoutView, timeouts)", what+" called with view="+paramName(fn, k1)+" list="+paramName(fn, k2)+" (expected the timeoutView parameter and the collected list)")
-		}
-	}
-
 	// C08.6 purge
 	if dov := p.Method("protocol/synchronizer", "timeoutCollector", "deleteOldViews"); dov != nil {
 		fd := NewFlow(p, dov)
@@ -354,38 +391,21 @@ func signerBound(c *Ctx, facts FactSet, sigKey, idKey string) bool {
 // the add call that takes neither the "HasAggregateQC() is false" edge nor the
 // "Verify(timeout.MsgSignature, timeout.ToBytes()) == nil" edge.
 func c08UnverifiedMsgSigPath(fl *Flow, fn *ssa.Function, addCall ssa.CallInstruction) string {
-	target := addCall.Block()
-	seen := map[*ssa.BasicBlock]bool{fn.Blocks[0]: true}
-	work := []*ssa.BasicBlock{fn.Blocks[0]}
-	for len(work) > 0 {
-		b := work[0]
-		work = work[1:]
-		if b == target {
-			return "reaches " + fl.P.Pos(addCall.Pos())
-		}
-		closes := func(fs []Fact) bool {
-			for _, f := range fs {
-				if f.Op == "false" && strings.HasPrefix(f.L, kHasAggQC) {
+	closes := func(fs []Fact) bool {
+		for _, f := range fs {
+			if f.Op == "false" && strings.HasPrefix(f.L, kHasAggQC) {
+				return true
+			}
+			if f.Op == "==" && oneIsNil(f) {
+				k := nonNil(f)
+				if strings.HasPrefix(k, kBaseVer) && strings.Contains(k, ", p1."+kTOMsg+"MsgSignature, (hs.TimeoutMsg).ToBytes(p1)") {
 					return true
 				}
-				if f.Op == "==" && oneIsNil(f) {
-					k := nonNil(f)
-					if strings.HasPrefix(k, kBaseVer) && strings.Contains(k, ", p1."+kTOMsg+"MsgSignature, (hs.TimeoutMsg).ToBytes(p1)") {
-						return true
-					}
-				}
-			}
-			return false
-		}
-		for _, s := range b.Succs {
-			blocked := edgeBlocked(fl, b, s, closes, 0)
-			if !blocked && !seen[s] {
-				seen[s] = true
-				work = append(work, s)
 			}
 		}
+		return false
 	}
-	return ""
+	return openPathTo(fl, addCall, closes)
 }
 
 // c08PerViewQuorum (C08.3): in add, the list returned with `true` contains only
